@@ -13,3 +13,5 @@ mod c02;
 mod c17;
 #[cfg(kani)]
 mod c26;
+#[cfg(kani)]
+mod c02b;
